@@ -234,6 +234,19 @@ def expandBind (procs : List (Nat × Nat)) (name esc n : Nat) : List ((Nat × Na
   | some p => (List.range n).map (fun j => ((esc, j + 1), p))
   | none => []
 
+/-- an expanding *tuple* bind: element `j` of tuple `i` becomes `esc_i_j` and gets
+    `tuple_processors[name][j-1]` (`none` = that column type has no bind processor); keys are
+    built from the escaped name, exactly like the element names put into the SQL -/
+def expandTupleBind (tprocs : List (Nat × List (Option Nat))) (name esc n : Nat) : List ((Nat × Nat × Nat) × Nat) :=
+  match tprocs.lookup name with
+  | some ps =>
+    (List.range n).flatMap (fun i =>
+      (List.range ps.length).filterMap (fun j =>
+        match ps.getD j none with
+        | some p => some ((esc, i + 1, j + 1), p)
+        | none => none))
+  | none => []
+
 /-- `get(lastrowid, parameters)`: `cursor.lastrowid` goes through the pk type's result
     processor; a non-None pk passed in the parameters wins and is returned untouched -/
 def insertedPk (proc : Int → Int) (explicitParam : Option Int) (lastrowid : Int) : Int :=
